@@ -43,6 +43,8 @@ JudgeImage(k, c, es, rs, img, before, ps) ==
                               at |-> DiffAt(ref, img), explen |-> Len(ref), gotlen |-> Len(img),
                               sig |-> k \o "/" \o Owner(k, c, es, rs, DiffAt(ref, img))])
   /\ Judge("C05", P_C05(k, es, rs, img), F("handles", [rets |-> rs]))
+  \* C18, accepted side: whatever is emitted has count and length fields that agree with the content
+  /\ Judge("C18", P_C02(k, img) /\ P_C03(k, c, es, rs, img, ref), F("fields_disagree_with_content", [emitted |-> Len(img)]))
   /\ Judge("C12", P_C12(k, c, es, rs, img), F("matrix", [emitted |-> Len(img)]))
   /\ Judge("C11", (k \in OptKinds) => C11Flags(k, c, es, rs, img), F("flag_union", [emitted |-> Len(img)]))
   /\ Judge("C11", (k \in OptKinds /\ Len(es) > 0 /\ before # <<>>) => C11Frame(k, c, es, rs, before, img),
@@ -56,7 +58,8 @@ JudgeBig(k) ==
 TNew ==
   /\ E.ev = "new"
   /\ kind' = E.kind /\ ctor' = E.ctor @@ FreeDefaults /\ ents' = <<>> /\ rets' = <<>>
-  /\ IF E.panic THEN prev' = <<>> /\ psum' = -1 /\ Judge("C04", FALSE, F("constructor_panicked", [z |-> 0]))
+  /\ Judge("C18", ~E.panic => CtorFits(E.kind, E.ctor), F("oversize_constructor_not_refused", [z |-> 0]))
+  /\ IF E.panic THEN prev' = <<>> /\ psum' = -1 /\ Judge("C04", ~CtorFits(E.kind, E.ctor), F("constructor_panicked", [z |-> 0]))
      ELSE IF Has(E, "big") THEN JudgeBig(kind') /\ prev' = <<>> /\ psum' = E.sum8
      ELSE prev' = E.img /\ psum' = Sum8(E.img) /\ JudgeImage(kind', ctor', <<>>, <<>>, E.img, <<>>, -1)
 
@@ -68,9 +71,11 @@ TOp ==
           /\ UNCHANGED <<ents, rets, prev, psum>>
           \* a refused operation yields no image: the caller's values did not land anywhere (C04); for the matrix
           \* operations it is also C12's "every in-range pair is accepted"
-          /\ Judge("C04", FALSE, F("unexpected_panic", [z |-> 0]))
+          \* (unless the specification itself refuses the operation: oversize counts, C18)
+          /\ Judge("C04", ~OpFits(kind, ctor, ents, rets, E.op), F("unexpected_panic", [z |-> 0]))
           /\ Judge("C12", ~(E.op.op \in {"set_distance", "add_system_locality"}), F("unexpected_panic", [z |-> 0]))
      ELSE /\ ents' = Append(ents, E.op) /\ rets' = Append(rets, E.ret)
+          /\ Judge("C18", OpFits(kind, ctor, ents, rets, E.op), F("oversize_not_refused", [z |-> 0]))
           /\ IF ~E.observed THEN prev' = <<>> /\ psum' = -1
              ELSE IF Has(E, "big") THEN JudgeBig(kind) /\ prev' = <<>> /\ psum' = E.sum8
              ELSE JudgeImage(kind, ctor, ents', rets', E.img, prev, psum) /\ prev' = E.img /\ psum' = Sum8(E.img)
